@@ -234,6 +234,8 @@ def run(ctx) -> None:
     ctx.rule("R6", "prerequisite: what is staged and committed is exactly the configured set of files (C08/R1-R2)")
     from sa.report import run_prerequisite
     run_prerequisite(ctx, "C08", ("R1", "R2"), "R6")
+    ctx.rule("R7", "--allow-dirty is a flag that is off unless given")
+    shapes.cli_option_rule(ctx, "R7", ["--allow-dirty"])
     ctx.rule("R5", "the VCS is detected wherever git works: the `.git` marker is tested for existence, not for being a directory")
 
     # ------------------------------------------------------------------ R1
